@@ -243,12 +243,41 @@ func scenario(k int) {
 			}
 		}
 	}
-	// some are closed again; an address may be removed
+	// a connected socket connects to the same peer once more: whatever that call returns,
+	// the socket keeps (or regains) the registration it had
 	for _, s := range socks {
+		if s.RAddr != "" && r.Chance(1, 3) {
+			e := s.ep.Connect(tcpip.FullAddress{Addr: s.RAddr, Port: s.RPort, NIC: map[bool]tcpip.NICID{true: s.NIC, false: 0}[s.Kind == "udp-connected-nic"]})
+			tr("#%d connects to the same peer again -> %v", s.ID, e)
+			run.Count("reconnects_to_the_same_peer", 1)
+		}
+	}
+	// some are closed again; an address may be removed
+	nopen := len(socks)
+	for _, s := range socks[:nopen] {
 		if r.Chance(1, 5) {
 			s.ep.Close()
 			s.closed = true
 			tr("close #%d", s.ID)
+			// a listener is restarted at once on the same port (before the old one's
+			// goroutine has wound down)
+			if s.Proto == "tcp-listen" && r.Bool() {
+				n := &sock{ID: len(socks), Proto: s.Proto, Kind: s.Kind, LAddr: s.LAddr, LPort: s.LPort}
+				var e *tcpip.Error
+				if n.ep, e = w.s.NewEndpoint(tcp.ProtocolNumber, ipv4.ProtocolNumber, &waiter.Queue{}); e == nil {
+					if e = n.ep.Bind(tcpip.FullAddress{Addr: n.LAddr, Port: n.LPort}, nil); e == nil {
+						e = n.ep.Listen(8)
+					}
+					if e == nil {
+						socks = append(socks, n)
+						tr("listener restarted as %s", n)
+						run.Count("listeners_restarted", 1)
+					} else {
+						tr("restart of the listener failed: %v", e)
+						n.ep.Close()
+					}
+				}
+			}
 		}
 	}
 	rawpeer.Settle()
